@@ -2635,6 +2635,13 @@ class RelevantPatientInformationQueryServiceClass(ServiceClass):
             LOGGER.info("Find SCP Response: 0x0000 (Success)")
             self.dimse.send_msg(rsp, cx_id)
             return
+        elif status[0] == STATUS_WARNING:
+            # If warning, then rsp_identifier is None
+            LOGGER.info(
+                f"Find SCP Response: 0x{rsp.Status:04X} (Warning - {status[1]})"
+            )
+            self.dimse.send_msg(rsp, cx_id)
+            return
         elif status[0] == STATUS_PENDING:
             # If pending, the rsp_identifier is the Identifier dataset
             rsp_identifier = cast(Dataset, rsp_identifier)
